@@ -114,23 +114,28 @@ inductive Err where
   | noRevisionId (node : Nat)   -- CommandError "Could not determine revision id from filename"
 deriving Repr, DecidableEq
 
+/-- The part of `Script._from_filename` before the import: does the real name match the regex,
+    and (for `.pyc`/`.pyo`) is there no preferred sibling?
+    `py_exists or is_o and pyc_exists` → `return None`. -/
+def accepts (fs : FS) (cfg : Cfg) (n : Nat) : Bool :=
+  match matchRevFile cfg.sourceless (fs.node n).name with
+  | none => false
+  | some (py, kind) =>
+    let pyExists := fs.exists_ (fs.node n).dir py
+    let pycExists := fs.exists_ (fs.node n).dir (py ++ ['c'])
+    !(kind != .py && (pyExists || (kind == .pyo && pycExists)))
+
 /-- `Script._from_filename(scriptdir, dirname(realpath), basename(realpath))` -/
 def fromFilename (fs : FS) (cfg : Cfg) (n : Nat) : Except Err (Option Loaded) :=
-  let f := fs.node n
-  match matchRevFile cfg.sourceless f.name with
-  | none => .ok none
-  | some (py, kind) =>
-    let pyExists := fs.exists_ f.dir py
-    let pycExists := fs.exists_ f.dir (py ++ ['c'])
-    if kind != .py && (pyExists || (kind == .pyo && pycExists)) then .ok none
-    else
-      match f.content with
-      | .broken => .error (.loadFailed n)
-      | .rev id => .ok (some ⟨n, id⟩)
-      | .noRev =>
-        match legacyRev f.name with
-        | some id => .ok (some ⟨n, id⟩)
-        | none => .error (.noRevisionId n)
+  if accepts fs cfg n then
+    match (fs.node n).content with
+    | .broken => .error (.loadFailed n)
+    | .rev id => .ok (some ⟨n, id⟩)
+    | .noRev =>
+      match legacyRev (fs.node n).name with
+      | some id => .ok (some ⟨n, id⟩)
+      | none => .error (.noRevisionId n)
+  else .ok none
 
 /-- the loop of `_load_revisions` over all listed paths; `dupes` = realpaths seen so far.
     Returns the scripts yielded and the canonical files of the "loaded twice" warnings. -/
